@@ -4,6 +4,7 @@ mod hook;
 mod step;
 mod workflow;
 
+use crate::sync::RwLock;
 use crate::utils::consts::TASK_ROOT_TID;
 use crate::{
     Act, ActError, ActTask, Catch, Error, Message, MessageState, NodeKind, Result, ShareLock,
@@ -19,10 +20,7 @@ use crate::{
 pub use hook::{StatementBatch, TaskLifeCycle};
 use serde::de::DeserializeOwned;
 use serde_json::json;
-use std::{
-    collections::HashMap,
-    sync::{Arc, RwLock},
-};
+use std::{collections::HashMap, sync::Arc};
 use tracing::{debug, info};
 
 #[derive(Clone)]
